@@ -1,9 +1,10 @@
 import SfVerif.Model.Typed
+import SfVerif.Gen.DeInt
 /-! C10 — integer deserialisation is exact or fails.
     `deInt lo hi x` is the guard of `impl_deserialize_for_int!` on the double with bits `x`
     (`n.trunc() == n && n >= MIN as f64 && n <= MAX as f64`, then the saturating cast). -/
 namespace SfVerif.Props.C10
-open SfVerif
+open SfVerif SfVerif.Gen
 
 /-- the bounds of an integer type survive the trip through `as f64` exactly -/
 def BoundsExact (lo hi : Int) : Prop :=
@@ -122,5 +123,35 @@ theorem C10_non_integers_rejected (lo hi : Int) (x : Nat) (h : F64.toInt? x = no
 /-- non-vacuity: 127.0 is accepted as i8, 128.0 and 127.5 are rejected -/
 example : deInt (-128) 127 0x405fc00000000000 = some 127 ∧ deInt (-128) 127 0x4060000000000000 = none ∧
     deInt (-128) 127 0x405fe00000000000 = none := by decide +kernel
+
+/-- bounds the exactness theorems cover: both exactly representable, or the upper one rounding up by one -/
+def GoodBounds (lo hi : Int) : Prop :=
+  (F64.toInt? (F64.ofInt lo) = some lo ∧ F64.toInt? (F64.ofInt hi) = some hi) ∨
+  (F64.toInt? (F64.ofInt lo) = some lo ∧ F64.toInt? (F64.ofInt hi) = some (hi + 1))
+
+instance (lo hi : Int) : Decidable (GoodBounds lo hi) := by unfold GoodBounds; exact inferInstance
+
+/-- **tie by translation**: the model's `deInt` is the definition regenerated from the body of the
+    `impl_deserialize_for_int!` macro in api/src/read.rs (integrality test, both bound comparisons with
+    the operators as written, the cast), and every integer type the macro is instantiated for — at
+    either pointer width — has bounds covered by `C10_exact_small_types` / `C10_exact_partial_64` -/
+theorem C10_model_is_the_source_text :
+    (∀ lo hi bits, deIntGen lo hi bits = deInt lo hi bits) ∧
+    (∀ row ∈ deIntTypes, GoodBounds row.2.1 row.2.2.1 ∧ GoodBounds row.2.2.2.1 row.2.2.2.2) ∧
+    deIntTypes.length = 10 := by
+  refine ⟨fun _ _ _ => rfl, ?_, by decide +kernel⟩
+  decide +kernel
+
+/-- hence, for every instantiated type: `Ok(r)` iff the number is an integer with exact value `r` in
+    range — for all doubles when the bounds are exact, for all doubles but `MAX + 1` otherwise -/
+theorem C10_every_instantiated_type (lo hi : Int) (hg : GoodBounds lo hi) (x : Nat) (r : Int)
+    (hne : F64.toInt? x ≠ some (hi + 1) ∨ F64.toInt? (F64.ofInt hi) = some hi) :
+    deIntGen lo hi x = some r ↔ (F64.toInt? x = some r ∧ lo ≤ r ∧ r ≤ hi) := by
+  rw [C10_model_is_the_source_text.1]
+  rcases hg with ⟨h1, h2⟩ | ⟨h1, h2⟩
+  · exact deInt_exact_of_bounds lo hi ⟨h1, h2⟩ x r
+  · rcases hne with hne | hex
+    · exact deInt_exact_of_rounded_hi lo hi h1 h2 x r hne
+    · rw [h2] at hex; simp at hex; omega
 
 end SfVerif.Props.C10
